@@ -183,6 +183,15 @@ int main()
         NeighMoving* n2 = NeighMoving::create(false, nmaxi, 1.e6); n2->setBallSearch(true, (int)rng.range(1, 6));
         Run r1 = runKrig(dbin, dbout, model, n1, nvar), r2 = runKrig(dbin, dbout, model, n2, nvar);
         if (r1.ok && r2.ok) same("moving_ball_vs_standard", r1.est, r2.est, r1.sd, r2.sd, zs, st);
+        // second round with the same neighbourhood objects and the same data base object whose locations have been
+        // exchanged in place (sample i takes the place of sample n-1-i: same set of points, hence the same exact tie
+        // analysis, other values at each place): a search structure kept from the first round would be stale
+        for (int i = 0; i < nech / 2; i++) for (int d = 0; d < ndim; d++)
+        { double a = dbin->getCoordinate(i, d), b = dbin->getCoordinate(nech - 1 - i, d); dbin->setCoordinate(i, d, b); dbin->setCoordinate(nech - 1 - i, d, a); }
+        Run r3 = runKrig(dbin, dbout, model, n1, nvar), r4 = runKrig(dbin, dbout, model, n2, nvar);
+        if (r3.ok && r4.ok) same("moving_ball_vs_standard_after_moving_the_data", r3.est, r4.est, r3.sd, r4.sd, zs, st);
+        for (int i = 0; i < nech / 2; i++) for (int d = 0; d < ndim; d++)
+        { double a = dbin->getCoordinate(i, d), b = dbin->getCoordinate(nech - 1 - i, d); dbin->setCoordinate(i, d, b); dbin->setCoordinate(nech - 1 - i, d, a); }
         delete n1; delete n2;
       }
     }
